@@ -311,6 +311,16 @@ class C06Life(Monitor):
                     break
 
     def on_init(self, deme, start, end):
+        lv_ = self.ctx.desc["levels"][deme.level] if deme.level < len(self.ctx.desc.get("levels", [])) else {}
+        if lv_.get("engine") == "cma_stds" and self.ctx.tree is not None and deme._sprout_seed is not None:
+            try:
+                from pyhms.utils.covariance_estimate import get_population
+
+                parent = next(p_ for p_ in self.ctx.tree.levels[deme.level - 1] if any(i is deme._sprout_seed for i in p_.all_individuals))
+                if (np.std(get_population(parent, deme._sprout_seed), axis=0) == 0).any():
+                    self.collapsed_parent = getattr(self, "collapsed_parent", set()) | {deme.id}
+            except StopIteration:
+                pass
         if type(deme).__name__ == "LocalDeme" and self.ctx.tree is not None:
             for lvl in self.ctx.tree.levels:
                 for p_ in lvl:
@@ -321,6 +331,8 @@ class C06Life(Monitor):
         self.enters[deme.id] += 1
         self.was_active[deme.id] = deme.is_active
         lv = self.ctx.desc["levels"][deme.level] if deme.level < len(self.ctx.desc.get("levels", [])) else {}
+        if deme.id in getattr(self, "collapsed_parent", ()):
+            self.pending_collapsed = getattr(self, "pending_collapsed", set()) | {deme.id}
         if lv.get("mutation_std_step") and self._hib():
             slept = self.ctx.step - 1 - deme.started_at - deme.metaepoch_count  # metaepochs of the tree in which this deme did not run
             if slept * lv["mutation_std_step"] > (lv["mutation_std"] if isinstance(lv.get("mutation_std"), float) else 1e300):
@@ -428,6 +440,9 @@ class C06Life(Monitor):
                 self.v(f"engine terminated itself but the deme stayed active: {cname}", deme=deme.id)
 
     def on_step_end(self, tree):
+        for did in getattr(self, "pending_collapsed", ()):
+            self.cov("cma_deme_with_estimated_widths_ran_after_being_sprouted_from_a_collapsed_parent_population")
+        self.pending_collapsed = set()
         for d in self.all_demes(tree):
             cname = type(d).__name__
             if d.id in self.mc_before:
